@@ -1134,12 +1134,17 @@ func combinedCases() []*kase {
 
 // --- rewriters: docs/rewriting.md (old, new, max; `not` only in sections, line 22),
 // docs/tcp-admin-interface.md:14 addRewriter <old> <new> <max>
+var tokenLike = map[string]bool{"404": true, "200": true, "true": true, "false": true, "prefix": true, "sub": true}
+
 func rewriterCases() []*kase {
 	var out []*kase
 	type ow struct{ old, new, max string }
 	for _, c := range []ow{
 		{"rwold", "rwnew", "-1"}, {"rwold", "rwnew", "1"}, {"rwold", "rwnew", "2"}, {"rwnew", "rwold", "3"},
 		{`/rw\.([^.]+)/`, "rws.${1}.x", "-1"}, {"/^/", "rwpfx.", "-1"}, {"=", "_is_", "-1"},
+		// values that look like another kind of token to the command scanner (digits only, an option
+		// name, a boolean): refused by a syntax, or the same entry in both - never a different one
+		{"404", "rwnew", "-1"}, {"rwold", "200", "-1"}, {"404", "200", "1"}, {"true", "false", "-1"}, {"prefix", "sub", "-1"},
 	} {
 		for _, not := range []string{"(omitted)", "", "rwnot", "/rwn[0-9]/"} {
 			k := &kase{Kind: "rewriter", Desc: fmt.Sprintf("old=%s new=%s max=%s not=%s", c.old, c.new, c.max, not)}
@@ -1157,6 +1162,9 @@ func rewriterCases() []*kase {
 			tl = append(tl, "max = "+c.max)
 			k.Want = want
 			k.Variants = append(k.Variants, variant{"toml", []string{strings.Join(tl, "\n") + "\n"}})
+			if tokenLike[c.old] || tokenLike[c.new] {
+				k.AcceptError = true
+			}
 			if not == "(omitted)" || not == "" {
 				cmd := "addRewriter " + c.old + " " + c.new + " " + c.max
 				k.Variants = append(k.Variants, variant{"cmd", []string{cmd}}, variant{"init", []string{"[init]\ncmds = [\n  '" + cmd + "',\n]\n"}})
